@@ -116,12 +116,15 @@ def factories(srn, g):
     R = g.R
     out = []
     if srn in ("Sat3", "Bool"):
+        out.append(("Earley(raw)", "earley", "parser", lambda: Earley(g), R.zero))
+        out.append(("IncrementalCKY(raw)", "cky", "parser", lambda: IncrementalCKY(g.cnf), R.zero))
         out.append(("Earley", "earley", "parser", lambda: Earley(g.prefix_grammar), R.zero))
         out.append(("IncrementalCKY", "cky", "parser", lambda: IncrementalCKY(g.cnf.prefix_grammar.cnf), R.zero))
     if srn == "Bool":
         out.append(("BoolCFGLM[earley]", "earley", "lm", lambda: BoolCFGLM(g, alg="earley"), 0))
         out.append(("BoolCFGLM[cky]", "cky", "lm", lambda: BoolCFGLM(g, alg="cky"), 0))
     if srn == "Rat":
+        out.append(("rescaled.Earley(raw)", "earley", "parser", lambda: ER.Earley(g), 0))
         out.append(("Earley", "earley", "parser", lambda: Earley(g.prefix_grammar), 0))
         out.append(("rescaled.Earley", "earley", "parser", lambda: ER.Earley(g.prefix_grammar), 0))
         out.append(("EarleyLM", "earley", "lm", lambda: EarleyLM(g), 0))
@@ -242,11 +245,11 @@ def walk(report, rng, tier):
 
 def histories(rng, tier):
     events = []
-    n_hist = 12 if tier == "quick" else 80
+    n_hist = 40 if tier == "quick" else 300
     for hi in range(n_hist):
         srn, shape = [("Sat3", "any"), ("Rat", "acyclic"), ("Bool", "any"), ("Sat3", "leftcycle"), ("Bool", "leftcycle")][hi % 5]
         R = gops.SR[srn]
-        g = fam.rand_cfg(rng, R, shape=shape, nN=3, nrules=5)
+        g = fam.rand_cfg(rng, R, shape=shape, nN=4 if shape == "leftcycle" else 3, nrules=5 if shape != "leftcycle" else 2)
         if shape in ("any", "leftcycle"):
             g = fam.ensure_language(g, rng)
         else:
@@ -280,6 +283,54 @@ def histories(rng, tier):
             e["feat"] = "history"
             e["call"] = {"fn": "history", "args": {"sr": srn, "G": G, "obj": name, "history": list(hist)}}
             events.append(e)
+    return events
+
+
+def positive_histories(rng, tier):
+    """Two-query histories of strings IN the language on raw parser objects, over grammars with left-corner cycles
+    that are entered behind a first token: whatever the first query leaves behind on the object (caches, grammar-level
+    memos) must not change the second answer.  Fresh answers are computed once per grammar."""
+    import itertools
+    events = []
+    for gi in range(90 if tier == "quick" else 600):
+        srn = ["Sat3", "Bool"][gi % 2]
+        R = gops.SR[srn]
+        g = fam.rand_cfg(rng, R, shape="leftcycle", nN=4, nrules=rng.choice([1, 2]))
+        G, _ = cfg_proj(g)
+        facs = [f for f in factories(srn, g) if f[0].endswith("(raw)")]
+        V = sorted(g.V)
+        strs = [s for n in range(1, 5) for s in itertools.product(V, repeat=n)]
+        name, kind, role, make, zero = facs[gi % len(facs)]
+        try:
+            probe = make()
+            fresh = {s: repr(make()(s)) for s in strs}
+            good = [s for s in strs if probe(s) != zero]
+        except Exception:  # noqa: BLE001
+            continue
+        if len(good) < 2:
+            continue
+        rng.shuffle(good)
+        for s1 in good[:6]:
+            ob = Obj(name, kind, role, make, zero)
+            try:
+                ob.o(s1)
+            except Exception:  # noqa: BLE001
+                continue
+            for s2 in good:
+                before = ob.keys()
+                e = {"op": "query", "kind": kind, "role": role, "obj": name, "q": "call", "p": seq(s2), "before": before,
+                     "hid": f"pos{gi}", "site": f"{name}.call", "feat": "history-in-language",
+                     "call": {"fn": "history", "args": {"sr": srn, "G": G, "obj": name,
+                                                        "history": [["call", list(s1)], ["call", list(s2)]]}}}
+                try:
+                    e["same"] = repr(ob.o(s2)) == fresh[s2]
+                except Exception as ex:  # noqa: BLE001
+                    e["exc"] = type(ex).__name__
+                e["after"] = ob.keys()
+                events.append(e)
+                # every pair is replayed from a clean history: rebuild the object with only s1 behind it
+                ob = Obj(name, kind, role, make, zero)
+                ob.o(s1)
     return events
 
 
@@ -368,7 +419,7 @@ def selftests(events, rng):
 
 def run(report, tier, seed):
     rng = random.Random(seed + 5)
-    events = walk(report, rng, tier) + histories(rng, tier) + purity(rng, tier)
+    events = walk(report, rng, tier) + histories(rng, tier) + positive_histories(rng, tier) + purity(rng, tier)
     for e in events:
         report.case(e, trivial=())
     judge(report, MODULE, events, relevant=RELEVANT)
